@@ -94,6 +94,7 @@ import re as _re  # noqa: E402
 
 RE_STR = codec.register("e1_compiled_str_pattern", _re.compile("a"))
 RE_BYTES = codec.register("e1_compiled_bytes_pattern", _re.compile(b"a"))
+RE_FLAGS = codec.register("e1_compiled_pattern_with_flags", _re.compile("abc", _re.I | _re.S))
 ANY0 = Sch(("any", None))
 I1 = Sch(S("int", call(1)))
 SA = Sch(S("str", call("a")))
@@ -129,12 +130,12 @@ def _alphabet(kind, tier):
     if kind == "str":
         lens = [(0,), (1,), (2,), (33,), (-1,), (True,), (1, E), (2, E), (E, 1), (E, 2), (1, 2), (2, 1),
                 (E, E), (Nil,), ("x",), (1.5,), (None,), (1, "x"), (E, None), (0, E), (E, 0), (E,), (1, Nil)]
-        return ([(c, (v,)) for v in ("", "a", "ab", "abc", 1, None, b"a", E, "{id}", "a{0}")]
+        return ([(c, (v,)) for v in ("", "a", "ab", "abc", 1, None, b"a", E, "{id}", "a{0}", "ABC")]
                 + [("len", a) for a in lens]
                 + [("alphabet", (v,)) for v in ("", "a", "ab", "abc", 1, None, E, "{}id0a")]
                 + [("contains", (v,)) for v in ("", "a", "ab", "c", 1, None, E, "{")]
                 + [("regex", (v,)) for v in ("a", "[ab]+", "^a.$", "a{2}", "*", "(",
-                                             "a{99999999999999999999}", 1, None, E, RE_STR, RE_BYTES)])
+                                             "a{99999999999999999999}", 1, None, E, RE_STR, RE_BYTES, RE_FLAGS)])
     if kind == "bool":
         return [(c, (v,)) for v in (True, False, 1, 0, "x", None, E, Nil)]
     if kind == "bytes":
